@@ -42,9 +42,9 @@ CLAIMED = {
         ref="DESIGN.md section 4 C18",
         note="The user error coercer returns normally; bytes are opaque non-str values; 'locations lie inside the query text' is not decided (absent C parser)."),
     'C01': dict(
-        text="collect_fields and collect_subfields are proved equal to the CollectFields algorithm of GraphQL 6.3.2 (accumulator form: @skip/@include outcome first, response key = alias or name, first-appearance order, inline fragments / spreads under their type condition, each named fragment once per grouped set) by a loop invariant and the recursive callee contract; should_include_node and does_fragment_condition_match against their clauses; execute_operation (executor choice, root collection), execute_fields_serially (one await per key in order, ordered result map), complete_value_catching_error and get_output_coercer (output chain = CompleteValue for the declared type).",
+        text="collect_fields and collect_subfields are proved equal to the CollectFields algorithm of GraphQL 6.3.2 (accumulator form: @skip/@include outcome first, response key = alias or name, first-appearance order, inline fragments / spreads under their type condition, each named fragment once per grouped set) by a loop invariant and the recursive callee contract; should_include_node and does_fragment_condition_match against their clauses; execute_operation (executor choice, root collection), execute_fields_serially (one await per key in order, ordered result map), execute_fields (one resolve_field coroutine per collected key, gathered with return_exceptions, result map pointwise equal to the awaited outcomes in key order, every failure re-raised as one MultipleException), complete_value_catching_error and get_output_coercer (output chain = CompleteValue for the declared type).",
         ref="DESIGN.md section 4 C01",
-        note="Not under contract in this revision: execute_fields (covered structurally by the gather rule only), resolve_field / resolve_field_value_or_error (resolver called once with coerced arguments), abstract_coercer / ensure_valid_runtime_type (type-resolver precedence), default_field_resolver. Termination of fragment recursion is not verified. User resolvers and hooks are opaque."),
+        note="Not under contract in this revision: resolve_field / resolve_field_value_or_error (resolver called once with coerced arguments), abstract_coercer / ensure_valid_runtime_type (type-resolver precedence), default_field_resolver. Termination of fragment recursion is not verified. User resolvers and hooks are opaque."),
     'C09': dict(
         text="execute_operation selects execute_fields_serially exactly when the operation type is 'mutation' and runs it on the collected root fields; execute_fields_serially awaits resolve_field once per collected key in collection order (ghost trace == keys of the collected map) and builds the response map in that order; a raising (non-null) root field stops the loop and execute_operation answers null with the error recorded; structural obligations: no create_task/ensure_future/... anywhere in the request cone and every gather over raising awaitables uses return_exceptions=True, so a root field's whole sub-selection has completed when its await returns.",
         ref="DESIGN.md section 4 C09",
@@ -58,7 +58,7 @@ CLAIMED = {
         ref="DESIGN.md section 4 C05",
         note="Not under contract in this revision: coerce_arguments / argument_coercer, the literal scalar / enum / list / input-object coercer bodies and get_literal_coercer, hence no literal=variable lemma over the whole type structure (only the C10 leaf lemmas). Variables nested in list/object literals are not covered by rule 5.8.5 in the code (deviation D6 of DESIGN section 5, not decided by a failing obligation here)."),
     'C06': dict(
-        text="Rule layer, no_false_reject half, for the functions that decide rule 5.8.5 (_validate_type_compatibility == AreTypesCompatible, _validate_usage == IsVariableUsageAllowed, _find_variable_by_name == first definition of that name in THIS operation) and rule 5.5.2.3 (_validate_node: impossible only when the condition is an existing composite type whose possible types do not overlap the parent's; _validate_spreads: reports only when some site is impossible); valid requests reach execute (_perform_query).",
+        text="Rule layer, no_false_reject half, for the functions that decide rule 5.8.5 (_validate_type_compatibility == AreTypesCompatible, _validate_usage == IsVariableUsageAllowed, _find_variable_by_name == first definition of that name in THIS operation) and rule 5.5.2.3 (_validate_node: impossible only when the condition is an existing composite type whose possible types do not overlap the parent's; _validate_is_possible: unit contract with the helper inlined, reports iff some node is impossible; _validate_spreads: reports only when some site is impossible); valid requests reach execute (_perform_query).",
         ref="DESIGN.md section 4 C06/C07, Appendix A",
         note="Only 2 of the 26 rules have their deciding functions under contract; the context layer of the AST builder is covered by the frame pass only (C16). Known deviations D2 (false cycle reports) and D7 are NOT rediscovered by an obligation in this revision: C06 is claimed for the functions listed, nothing more."),
     'C07': dict(
@@ -66,9 +66,9 @@ CLAIMED = {
         ref="DESIGN.md section 4 C06/C07, Appendix A",
         note="As C06: 2 of 26 rules; deviations D3-D8 are not rediscovered by obligations in this revision."),
     'C08': dict(
-        text="(i) list_coercer_sequentially and list_coercer_concurrently satisfy literally the same contract (positional results, every item failure gathered), extract_exceptions_from_results, coerce_variables and input_object_coercer merge positionally (loop invariants over zip); (ii) structural obligations over the request cone: every asyncio.gather whose awaitables may raise uses return_exceptions=True (so it returns only when all of them have finished and loses no failure), no create_task / ensure_future / as_completed anywhere (every started coroutine is awaited in place).",
+        text="(i) list_coercer_sequentially and list_coercer_concurrently satisfy literally the same contract (positional results, every item failure gathered), extract_exceptions_from_results, coerce_variables, input_object_coercer and execute_fields merge positionally (loop invariants over zip; pointwise claim for an arbitrary index); (ii) structural obligations over the request cone: every asyncio.gather whose awaitables may raise uses return_exceptions=True (so it returns only when all of them have finished and loses no failure), no create_task / ensure_future / as_completed anywhere (every started coroutine is awaited in place).",
         ref="DESIGN.md section 4 C08",
-        note="execute_fields' positional merge is NOT under an SMT contract in this revision (only the gather rule covers it); no schedule is enumerated; termination is not decided; 'none is started twice under every schedule' follows only from the once-per-call-site contracts (C01/C09/C13)."),
+        note="no schedule is enumerated; termination is not decided; 'none is started twice under every schedule' follows only from the once-per-call-site contracts (C01/C09/C13)."),
     'C12': dict(
         text="_validate_schema_named_types reports at least one error exactly when some field of a type that has fields (objects AND interfaces) names an undefined type (nested loop invariants); _validate_field_type_is_same_as_interface_type equals the interface-conformance predicate (same type, non-null version of a compatible type, or possible type of a plain named interface; list / non-null interface types admit nothing else) by the recursive callee contract; reduce_type strips every wrapper.",
         ref="DESIGN.md section 4 C12, Appendix B",
